@@ -29,3 +29,15 @@ Definition specE (key : list N) : list N -> list N :=
   let rk := sm4_key_schedule key in fun blk => sm4_crypt_block rk blk.
 Definition specD (key : list N) : list N -> list N :=
   let rk := rev (sm4_key_schedule key) in fun blk => sm4_crypt_block rk blk.
+
+(* block_cipher.c, aes128 object: set_*_key = aes_set_*_key with length 16 (their int result is
+   discarded by the cast to a void function), encrypt = aes_encrypt, and -- as coded --
+   decrypt = aes_encrypt as well (under the decryption key schedule). *)
+From GmVerif Require Import Cipher.AES.
+Definition aes_key_or_zero (k : option (list N * nat)) : list N * nat :=
+  match k with Some x => x | None => ([], 0%nat) end.
+Definition bc_aes128_set_encrypt_key (raw : list N) : list N * nat := aes_key_or_zero (aes_set_encrypt_key (firstn 16 raw)).
+Definition bc_aes128_set_decrypt_key (raw : list N) : list N * nat := aes_key_or_zero (aes_set_decrypt_key (firstn 16 raw)).
+Definition bc_aes128_encrypt (k : list N * nat) (blk : list N) : list N := aes_encrypt_rk (fst k) (snd k) blk.
+(* (block_cipher_decrypt_func)aes_encrypt *)
+Definition bc_aes128_decrypt (k : list N * nat) (blk : list N) : list N := aes_encrypt_rk (fst k) (snd k) blk.
